@@ -174,4 +174,303 @@ end
 
 def FreshEnv (env : Env) : Prop := ∀ p ∈ env, p.1 ≠ n'
 
+/-! ### helper lemmas -/
+
+theorem renEnv_cons (x : Bytes) (l : Loc) (env : Env) :
+    renEnv d n' ((x, l) :: env) = (rnDecl d n' x l, l) :: renEnv d n' env := by simp [renEnv]
+
+theorem pushParams_ren (ps : List (Bytes × Loc)) (env : Env) :
+    pushParams (renEnv d n' env) (rnParams d n' ps) = renEnv d n' (pushParams env ps) := by
+  induction ps generalizing env with
+  | nil => simp [pushParams, rnParams]
+  | cons p r ih =>
+    obtain ⟨x, l⟩ := p
+    have : rnParams d n' ((x, l) :: r) = (rnDecl d n' x l, l) :: rnParams d n' r := by simp [rnParams]
+    rw [this]
+    simp only [pushParams]
+    rw [← renEnv_cons, ih]
+
+theorem pushNames_ren (ns : List (Bytes × Loc × Nat)) (env : Env) :
+    pushNames (renEnv d n' env) (rnNames d n' ns) = renEnv d n' (pushNames env ns) := by
+  induction ns generalizing env with
+  | nil => simp [pushNames, rnNames]
+  | cons p r ih =>
+    obtain ⟨x, l, k⟩ := p
+    have : rnNames d n' ((x, l, k) :: r) = (rnDecl d n' x l, l, k) :: rnNames d n' r := by simp [rnNames]
+    rw [this]
+    simp only [pushNames]
+    rw [← renEnv_cons, ih]
+
+theorem fresh_cons (x : Bytes) (l : Loc) (env : Env) (hx : x ≠ n') (h : FreshEnv n' env) : FreshEnv n' ((x, l) :: env) := by
+  intro p hp
+  rcases List.mem_cons.mp hp with e | e
+  · subst e; exact hx
+  · exact h p e
+
+theorem fresh_pushParams (ps : List (Bytes × Loc)) (env : Env) (hps : ps.all (fun p => p.1 != n') = true)
+    (h : FreshEnv n' env) : FreshEnv n' (pushParams env ps) := by
+  induction ps generalizing env with
+  | nil => simpa [pushParams] using h
+  | cons p r ih =>
+    obtain ⟨x, l⟩ := p
+    simp only [List.all_cons, Bool.and_eq_true] at hps
+    simp only [pushParams]
+    exact ih _ hps.2 (fresh_cons n' x l env (by simpa using hps.1) h)
+
+theorem fresh_pushNames (ns : List (Bytes × Loc × Nat)) (env : Env) (hns : ns.all (fun p => p.1 != n') = true)
+    (h : FreshEnv n' env) : FreshEnv n' (pushNames env ns) := by
+  induction ns generalizing env with
+  | nil => simpa [pushNames] using h
+  | cons p r ih =>
+    obtain ⟨x, l, k⟩ := p
+    simp only [List.all_cons, Bool.and_eq_true] at hns
+    simp only [pushNames]
+    exact ih _ hns.2 (fresh_cons n' x l env (by simpa using hns.1) h)
+
+/-- a use keeps its binding -/
+theorem core_use (env : Env) (x : Bytes) (l : Loc) (w : Bool) (hx : x ≠ n') (hf : FreshEnv n' env) :
+    core (use (renEnv d n' env) (rnName d n' env x) l w) = core (use env x l w) := by
+  simp only [core, use]
+  rw [lookup_renEnv d n' env x hx hf]
+
+theorem core_params (ps : List (Bytes × Loc)) (rg : Loc) (dk : String) :
+    ((rnParams d n' ps).map (fun p => declOcc p.1 p.2 rg dk)).map core = (ps.map (fun p => declOcc p.1 p.2 rg dk)).map core := by
+  simp [rnParams, core, declOcc]
+
+theorem rnExps_length (env : Env) (es : List Exp) : (rnExps d n' env es).length = es.length := by
+  induction es with
+  | nil => simp [rnExps]
+  | cons e r ih => simp [rnExps, ih]
+
+theorem core_localDecls (sl : Loc) (names : List (Bytes × Loc × Nat)) (es es' : List Exp) (hl : es'.length = es.length) :
+    (localDecls sl (rnNames d n' names) es').map core = (localDecls sl names es).map core := by
+  induction names generalizing es es' with
+  | nil => simp [rnNames, localDecls]
+  | cons p r ih =>
+    obtain ⟨x, l, k⟩ := p
+    have hr : rnNames d n' ((x, l, k) :: r) = (rnDecl d n' x l, l, k) :: rnNames d n' r := by simp [rnNames]
+    rw [hr]
+    cases es with
+    | nil =>
+      cases es' with
+      | nil => simp only [localDecls, List.map]; rw [ih [] [] rfl]; simp [core, declOcc]
+      | cons a b => simp at hl
+    | cons e er =>
+      cases es' with
+      | nil => simp at hl
+      | cons a b =>
+        simp only [localDecls, List.map]
+        rw [ih er b (by simpa using hl)]
+        simp [core, declOcc]
+
+
+/-! ### the binding structure is invariant -/
+
+mutual
+theorem aExp : (e : Exp) → (env : Env) → frExp n' e = true → FreshEnv n' env →
+    (bExp false (renEnv d n' env) (rnExp d n' env e)).map core = (bExp false env e).map core
+  | .name x l, env, h, hf => by
+    simp only [frExp, bne_iff_ne, ne_eq] at h
+    simp only [rnExp, bExp, List.map]
+    rw [core_use d n' env x l false h hf]
+  | .noKey, env, _, _ => by simp [rnExp, bExp]
+  | .nil _, env, _, _ => by simp [rnExp, bExp]
+  | .tru _, env, _, _ => by simp [rnExp, bExp]
+  | .fls _, env, _, _ => by simp [rnExp, bExp]
+  | .vararg _, env, _, _ => by simp [rnExp, bExp]
+  | .int _ _, env, _, _ => by simp [rnExp, bExp]
+  | .flt _ _, env, _, _ => by simp [rnExp, bExp]
+  | .str _ _, env, _, _ => by simp [rnExp, bExp]
+  | .bad _, env, _, _ => by simp [rnExp, bExp]
+  | .unop _ e _, env, h, hf => by
+    simp only [frExp] at h; simp only [rnExp, bExp]; exact aExp e env h hf
+  | .parens e _, env, h, hf => by
+    simp only [frExp] at h; simp only [rnExp, bExp]; exact aExp e env h hf
+  | .binop _ a b _, env, h, hf => by
+    simp only [frExp, Bool.and_eq_true] at h
+    simp only [rnExp, bExp, List.map_append, aExp a env h.1 hf, aExp b env h.2 hf]
+  | .index a b _, env, h, hf => by
+    simp only [frExp, Bool.and_eq_true] at h
+    simp only [rnExp, bExp, List.map_append, aExp a env h.1 hf, aExp b env h.2 hf]
+  | .table ks vs _, env, h, hf => by
+    simp only [frExp, Bool.and_eq_true] at h
+    simp only [rnExp, bExp, List.map_append, aExps ks env h.1 hf, aExps vs env h.2 hf]
+  | .call p _ args _, env, h, hf => by
+    simp only [frExp, Bool.and_eq_true] at h
+    simp only [rnExp, bExp, List.map_append, aExp p env h.1 hf, aExps args env h.2 hf]
+  | .func f, env, h, hf => by
+    simp only [frExp] at h; simp only [rnExp, bExp]; exact aFunc f env h hf
+termination_by e => sizeOf e
+theorem aExps : (es : List Exp) → (env : Env) → frExps n' es = true → FreshEnv n' env →
+    (bExps false (renEnv d n' env) (rnExps d n' env es)).map core = (bExps false env es).map core
+  | [], env, _, _ => by simp [rnExps, bExps]
+  | e :: r, env, h, hf => by
+    simp only [frExps, Bool.and_eq_true] at h
+    simp only [rnExps, bExps, List.map_append, aExp e env h.1 hf, aExps r env h.2 hf]
+termination_by es => sizeOf es
+theorem aFunc : (f : FuncBody) → (env : Env) → frFunc n' f = true → FreshEnv n' env →
+    (bFunc false (renEnv d n' env) (rnFunc d n' env f)).map core = (bFunc false env f).map core
+  | .mk _ _ ps _ _ body _, env, h, hf => by
+    simp only [frFunc, Bool.and_eq_true] at h
+    have hb := aBlock body (pushParams env ps) h.2 (fresh_pushParams n' ps env h.1 hf)
+    simp only [rnFunc, bFunc, List.map_append]
+    rw [pushParams_ren, hb.1]
+    congr 1
+    simp [rnParams, core, declOcc]
+termination_by f => sizeOf f
+theorem aBlock : (b : Block) → (env : Env) → frBlock n' b = true → FreshEnv n' env →
+    ((bBlock false (renEnv d n' env) (rnBlock d n' env b)).1.map core = (bBlock false env b).1.map core ∧
+     (bBlock false (renEnv d n' env) (rnBlock d n' env b)).2 = renEnv d n' (bBlock false env b).2 ∧
+     FreshEnv n' (bBlock false env b).2)
+  | .mk stats none _, env, h, hf => by
+    simp only [frBlock, Bool.and_eq_true] at h
+    have hs := aStats stats env h.1 hf
+    simp only [rnBlock, bBlock]
+    exact hs
+  | .mk stats (some es) _, env, h, hf => by
+    simp only [frBlock, Bool.and_eq_true] at h
+    have hs := aStats stats env h.1 hf
+    have he := aExps es (bStats false env stats).2 h.2 hs.2.2
+    simp only [rnBlock, bBlock, List.map_append]
+    refine ⟨?_, hs.2.1, hs.2.2⟩
+    rw [hs.1, hs.2.1, he]
+termination_by b => sizeOf b
+theorem aStats : (ss : List Stat) → (env : Env) → frStats n' ss = true → FreshEnv n' env →
+    ((bStats false (renEnv d n' env) (rnStats d n' env ss)).1.map core = (bStats false env ss).1.map core ∧
+     (bStats false (renEnv d n' env) (rnStats d n' env ss)).2 = renEnv d n' (bStats false env ss).2 ∧
+     FreshEnv n' (bStats false env ss).2)
+  | [], env, _, hf => by simp only [rnStats, bStats]; (refine ⟨?_, ?_, hf⟩ <;> first | rfl | trivial)
+  | st :: r, env, h, hf => by
+    simp only [frStats, Bool.and_eq_true] at h
+    have h1 := aStat st env h.1 hf
+    have h2 := aStats r (bStat false env st).2 h.2 h1.2.2
+    simp only [rnStats, bStats, List.map_append]
+    rw [h1.1, h1.2.1]
+    exact ⟨by rw [h2.1], h2.2.1, h2.2.2⟩
+termination_by ss => sizeOf ss
+theorem aBlocks : (bs : List Block) → (env : Env) → frBlocks n' bs = true → FreshEnv n' env →
+    (bBlocks false (renEnv d n' env) (rnBlocks d n' env bs)).map core = (bBlocks false env bs).map core
+  | [], env, _, _ => by simp [rnBlocks, bBlocks]
+  | b :: r, env, h, hf => by
+    simp only [frBlocks, Bool.and_eq_true] at h
+    simp only [rnBlocks, bBlocks, List.map_append, (aBlock b env h.1 hf).1, aBlocks r env h.2 hf]
+termination_by bs => sizeOf bs
+theorem aStat : (st : Stat) → (env : Env) → frStat n' st = true → FreshEnv n' env →
+    ((bStat false (renEnv d n' env) (rnStat d n' env st)).1.map core = (bStat false env st).1.map core ∧
+     (bStat false (renEnv d n' env) (rnStat d n' env st)).2 = renEnv d n' (bStat false env st).2 ∧
+     FreshEnv n' (bStat false env st).2)
+  | .brk, env, _, hf => by simp only [rnStat, bStat]; (refine ⟨?_, ?_, hf⟩ <;> first | rfl | trivial)
+  | .label _ _, env, _, hf => by simp only [rnStat, bStat]; (refine ⟨?_, ?_, hf⟩ <;> first | rfl | trivial)
+  | .goto_ _ _, env, _, hf => by simp only [rnStat, bStat]; (refine ⟨?_, ?_, hf⟩ <;> first | rfl | trivial)
+  | .do_ b _, env, h, hf => by
+    simp only [frStat] at h
+    simp only [rnStat, bStat]
+    exact ⟨(aBlock b env h hf).1, trivial, hf⟩
+  | .while_ c b _, env, h, hf => by
+    simp only [frStat, Bool.and_eq_true] at h
+    simp only [rnStat, bStat, List.map_append, aExp c env h.1 hf, (aBlock b env h.2 hf).1]
+    (refine ⟨?_, ?_, hf⟩ <;> first | rfl | trivial)
+  | .repeat_ b c _, env, h, hf => by
+    simp only [frStat, Bool.and_eq_true] at h
+    have hb := aBlock b env h.1 hf
+    have hc := aExp c (bBlock false env b).2 h.2 hb.2.2
+    simp only [rnStat, bStat, List.map_append]
+    rw [hb.1, hb.2.1, hc]
+    (refine ⟨?_, ?_, hf⟩ <;> first | rfl | trivial)
+  | .if_ cs bs _, env, h, hf => by
+    simp only [frStat, Bool.and_eq_true] at h
+    simp only [rnStat, bStat, List.map_append, aExps cs env h.1 hf, aBlocks bs env h.2 hf]
+    (refine ⟨?_, ?_, hf⟩ <;> first | rfl | trivial)
+  | .fornum v vl i lim st b _, env, h, hf => by
+    simp only [frStat, Bool.and_eq_true, bne_iff_ne, ne_eq] at h
+    have hb := aBlock b ((v, vl) :: env) h.2 (fresh_cons n' v vl env h.1.1.1.1 hf)
+    simp only [rnStat, bStat, List.map_append, aExp i env h.1.1.1.2 hf, aExp lim env h.1.1.2 hf, aExp st env h.1.2 hf]
+    rw [← renEnv_cons, hb.1]
+    refine ⟨?_, trivial, hf⟩
+    simp [core, declOcc]
+  | .forin ns es b _, env, h, hf => by
+    simp only [frStat, Bool.and_eq_true] at h
+    have hb := aBlock b (pushParams env ns) h.2 (fresh_pushParams n' ns env h.1.1 hf)
+    simp only [rnStat, bStat, List.map_append, aExps es env h.1.2 hf]
+    rw [pushParams_ren, hb.1]
+    refine ⟨?_, trivial, hf⟩
+    simp [rnParams, core, declOcc]
+  | .assign vars exps _, env, h, hf => by
+    simp only [frStat, Bool.and_eq_true] at h
+    simp only [rnStat, bStat, List.map_append, aExps exps env h.2 hf,
+      aTargets vars env exps (rnExps d n' env exps) 0 h.1 hf]
+    (refine ⟨?_, ?_, hf⟩ <;> first | rfl | trivial)
+  | .local_ names exps sl, env, h, hf => by
+    simp only [frStat, Bool.and_eq_true] at h
+    simp only [rnStat, bStat, Bool.false_eq_true, if_false, List.map_append, aExps exps env h.2 hf]
+    rw [core_localDecls d n' sl names exps (rnExps d n' env exps) (rnExps_length d n' env exps), pushNames_ren]
+    exact ⟨rfl, rfl, fresh_pushNames n' names env h.1 hf⟩
+  | .localfn x xl f _, env, h, hf => by
+    simp only [frStat, Bool.and_eq_true, bne_iff_ne, ne_eq] at h
+    have hfe := fresh_cons n' x xl env h.1 hf
+    have hfn := aFunc f ((x, xl) :: env) h.2 hfe
+    simp only [rnStat, bStat, List.map_append]
+    rw [← renEnv_cons, hfn]
+    refine ⟨?_, rfl, hfe⟩
+    simp [core, declOcc]
+  | .callstat e, env, h, hf => by
+    simp only [frStat] at h
+    simp only [rnStat, bStat, aExp e env h hf]
+    (refine ⟨?_, ?_, hf⟩ <;> first | rfl | trivial)
+termination_by st => sizeOf st
+theorem aTargets : (vars : List Exp) → (env : Env) → (exps exps' : List Exp) → (i : Nat) →
+    frExps n' vars = true → FreshEnv n' env →
+    (bTargets false (renEnv d n' env) exps' i (rnExps d n' env vars)).map core = (bTargets false env exps i vars).map core
+  | [], env, exps, exps', i, _, _ => by simp [rnExps, bTargets]
+  | v :: r, env, exps, exps', i, h, hf => by
+    simp only [frExps, Bool.and_eq_true] at h
+    have hr := aTargets r env exps exps' (i + 1) h.2 hf
+    have hv := aExp v env h.1 hf
+    cases v with
+    | name x l =>
+      simp only [frExp, bne_iff_ne, ne_eq] at h
+      simp only [rnExps, rnExp, bTargets, List.map, hr]
+      congr 1
+      have := core_use d n' env x l true h.1 hf
+      simpa [core, use] using this
+    | noKey => simp only [rnExps, rnExp, bTargets, List.map_append, hr] at hv ⊢; simp [bExp]
+    | nil _ => simp only [rnExps, rnExp, bTargets, List.map_append, hr] at hv ⊢; simp [bExp]
+    | tru _ => simp only [rnExps, rnExp, bTargets, List.map_append, hr] at hv ⊢; simp [bExp]
+    | fls _ => simp only [rnExps, rnExp, bTargets, List.map_append, hr] at hv ⊢; simp [bExp]
+    | vararg _ => simp only [rnExps, rnExp, bTargets, List.map_append, hr] at hv ⊢; simp [bExp]
+    | int _ _ => simp only [rnExps, rnExp, bTargets, List.map_append, hr] at hv ⊢; simp [bExp]
+    | flt _ _ => simp only [rnExps, rnExp, bTargets, List.map_append, hr] at hv ⊢; simp [bExp]
+    | str _ _ => simp only [rnExps, rnExp, bTargets, List.map_append, hr] at hv ⊢; simp [bExp]
+    | bad _ => simp only [rnExps, rnExp, bTargets, List.map_append, hr] at hv ⊢; simp [bExp]
+    | unop _ _ _ => simp only [rnExps, rnExp, bTargets, List.map_append, hr] at hv ⊢; rw [hv]
+    | binop _ _ _ _ => simp only [rnExps, rnExp, bTargets, List.map_append, hr] at hv ⊢; rw [hv]
+    | table _ _ _ => simp only [rnExps, rnExp, bTargets, List.map_append, hr] at hv ⊢; rw [hv]
+    | func _ => simp only [rnExps, rnExp, bTargets, List.map_append, hr] at hv ⊢; rw [hv]
+    | parens _ _ => simp only [rnExps, rnExp, bTargets, List.map_append, hr] at hv ⊢; rw [hv]
+    | index _ _ _ => simp only [rnExps, rnExp, bTargets, List.map_append, hr] at hv ⊢; rw [hv]
+    | call _ _ _ _ => simp only [rnExps, rnExp, bTargets, List.map_append, hr] at hv ⊢; rw [hv]
+termination_by vars => sizeOf vars
+end
+
+/-- ALPHA-RENAMING: renaming the local declared at `d` to a name that occurs nowhere in the chunk leaves
+    every occurrence bound to the declaration it was bound to (same occurrences, same declaration
+    Locs, same declaration / write flags) -/
+theorem alpha_rename (b : Block) (h : frBlock n' b = true) :
+    (bindChunk (rnBlock d n' [] b)).map core = (bindChunk b).map core := by
+  unfold bindChunk
+  have := (aBlock d n' b [] h (by intro p hp; cases hp)).1
+  simpa [renEnv] using this
+
+#print axioms alpha_rename
+
+/-- premises satisfiable and the renaming non-trivial: `local x = 1; print(x)` with x ↦ z:
+    the use is re-spelled z, the new name is fresh, and a use of another variable is left alone -/
+example :
+    let dx : Loc := ⟨1, 6, 1, 7⟩
+    frBlock [122] (.mk [.local_ [([120], dx, 0)] [.int 1 ⟨1, 10, 1, 11⟩] ⟨1, 0, 1, 11⟩,
+                         .callstat (.call (.name [112] ⟨2, 0, 2, 5⟩) none [.name [120] ⟨2, 6, 2, 7⟩] ⟨2, 0, 2, 8⟩)] none ⟨1, 0, 2, 8⟩) = true ∧
+    rnExp dx [122] [([120], dx)] (.name [120] ⟨2, 6, 2, 7⟩) = .name [122] ⟨2, 6, 2, 7⟩ ∧
+    rnExp dx [122] [([120], dx)] (.name [112] ⟨2, 0, 2, 5⟩) = .name [112] ⟨2, 0, 2, 5⟩ := by
+  refine ⟨by simp [frBlock, frStats, frStat, frExps, frExp], by simp [rnExp, rnName, lookup], by simp [rnExp, rnName, lookup]⟩
+
 end LuaHelper.C11
